@@ -248,7 +248,63 @@ def read_routes(repo):
     return out, rr
 
 
+def read_app_chain(repo, fn_name, where_rel="src/main.rs"):
+    """`App::new().app_data(..)... .wrap(X).configure(F)` inside fn `fn_name` of main.rs ->
+    (list of wrap expressions as text, list of configure arguments as text); any other builder call is refused"""
+    f = rp.File(os.path.join(repo, where_rel), where_rel)
+    fns = f.find_fns().get(fn_name, [])
+    if len(fns) != 1:
+        raise Refuse("%s: fn %s not found exactly once" % (where_rel, fn_name))
+    body = fns[0]["body"]
+    starts = [i for i in range(len(body) - 4) if [t.v for t in body[i:i + 5]] == ["App", "::", "new", "(", ")"]]
+    if len(starts) != 1:
+        raise Refuse("%s:%s: expected exactly one App::new()" % (where_rel, fn_name))
+    i = starts[0]
+    j = i
+    while j < len(body):
+        t = body[j]
+        if t.k == "p" and t.v in ("(", "[", "{"):
+            j = rp.match_close(body, j) + 1
+            continue
+        if t.k == "p" and t.v in ("}", ";", ")"):
+            break
+        j += 1
+    e = rp.parse_expr(body[i:j], "%s:%s" % (where_rel, fn_name))
+    chain = []
+    cur = e
+    while cur[0] == "method":
+        chain.append((cur[2], cur[3]))
+        cur = cur[1]
+    chain.reverse()
+    if not (cur[0] == "call" and cur[1] == ("path", ["App", "new"]) and not cur[2]):
+        raise Refuse("%s:%s: builder does not start with App::new()" % (where_rel, fn_name))
+    wraps, configures = [], []
+    for name, args in chain:
+        if name == "app_data" and len(args) == 1:
+            continue
+        if name == "wrap" and len(args) == 1:
+            wraps.append(rp.show(args[0]))
+        elif name == "configure" and len(args) == 1:
+            configures.append(rp.show(args[0]))
+        else:
+            raise Refuse("%s:%s: unsupported App builder call .%s(..) (a route or middleware the tables do not cover)"
+                         % (where_rel, fn_name, name))
+    return wraps, configures
+
+
+def read_console_app(repo):
+    """the console server must be exactly CheckLogin (+ Logger / Compress) around console_config"""
+    wraps, configures = read_app_chain(repo, "run_console_web")
+    allowed = {"CheckLogin::new(source_app_data)", "middleware::Logger::default()", "middleware::Compress::default()"}
+    if "CheckLogin::new(source_app_data)" not in wraps or not set(wraps) <= allowed:
+        raise Refuse("src/main.rs:run_console_web: middleware stack %s is not CheckLogin + Logger/Compress" % wraps)
+    if configures != ["console_config"]:
+        raise Refuse("src/main.rs:run_console_web: configure(%s) is not exactly console_config" % configures)
+    return wraps
+
+
 def generate(repo):
+    read_console_app(repo)
     perm = read_permission(repo)
     lm = read_login_middle(repo)
     services, rr = read_routes(repo)
